@@ -102,3 +102,11 @@ Definition representable_xb2 (p : pic) : Prop :=
   xb_common p /\ used_pages (p_rows p) = [0%N; 1%N] /\ all_pic_cells (cell8_two_fonts (p_ice p)) p /\
   exists f0 f1 h, get_font (p_fonts p) 0 = Some f0 /\ get_font (p_fonts p) 1 = Some f1 /\
                   font_wf h f0 /\ font_wf h f1 /\ (1 <= h <= 32)%N.
+
+(* IDF: width 1..80 (the loader's layer is 80 wide), 1..200 rows (the writer refuses more; without a cell the loader keeps
+   Buffer::new's 25 rows), ice colours, font page 0 with an 8x16 font, 16 six-bit colours *)
+Definition representable_idf (p : pic) : Prop :=
+  rect p /\ 1 <= p_w p <= 80 /\ 1 <= p_h p <= 200 /\ p_ice p = Ice /\
+  all_pic_cells (cell8_page0 Ice) p /\
+  length (p_pal p) = 16%nat /\ Forall six_bit (p_pal p) /\
+  (exists f, get_font (p_fonts p) 0 = Some f /\ font_wf 16 f).
